@@ -15,6 +15,9 @@ import (
 // Eval evaluates the given source code and returns the result.
 func Eval(ctx context.Context, source string, options ...Option) (object.Object, error) {
 	cfg := NewConfig(options...)
+	if err := cfg.init(); err != nil {
+		return nil, err
+	}
 
 	// Parse the source code to create the AST
 	var parserOpts []parser.Option
@@ -45,6 +48,9 @@ func Eval(ctx context.Context, source string, options ...Option) (object.Object,
 // EvalCode evaluates the precompiled code and returns the result.
 func EvalCode(ctx context.Context, main *compiler.Code, options ...Option) (object.Object, error) {
 	cfg := NewConfig(options...)
+	if err := cfg.init(); err != nil {
+		return nil, err
+	}
 
 	// Use the specified VM if provided
 	if cfg.vm != nil {
@@ -66,6 +72,9 @@ func Call(
 	options ...Option,
 ) (object.Object, error) {
 	cfg := NewConfig(options...)
+	if err := cfg.init(); err != nil {
+		return nil, err
+	}
 
 	// Determine whether to use an existing VM or create a new one
 	var err error
